@@ -828,22 +828,40 @@ func (e *Exec) doSerial(c *Call, ev *Event, targets *[]int) bool {
 		outs := make([]*roaring.Bitmap, n)
 		errs := make([]bool, n)
 		var wg sync.WaitGroup
-		for i := 0; i < n; i++ {
-			wg.Add(1)
-			go func(i int) {
-				defer wg.Done()
-				defer func() {
-					if r := recover(); r != nil {
+		roaring.New().FromBuffer(append([]byte(nil), datas[0]...)) // the byte-buffer pool is not empty when the goroutines start
+		for round := 0; round < 4; round++ {
+			for i := 0; i < n; i++ {
+				wg.Add(1)
+				go func(i, round int) {
+					defer wg.Done()
+					defer func() {
+						if r := recover(); r != nil {
+							errs[i] = true
+						}
+					}()
+					nb := roaring.New()
+					var err error
+					switch (c.V + i + round) % 3 { // both process-wide reader pools: the stream adapters and the zero-copy byte buffers
+					case 0:
+						_, err = nb.ReadFrom(&yieldReader{b: datas[i], sizes: chunkings[(c.J+i)%len(chunkings)]})
+					case 1:
+						_, err = nb.FromBuffer(append([]byte(nil), datas[i]...))
+						runtime.Gosched()
+						nb = nb.Clone() // an own copy: the buffer above is private to this goroutine and is dropped
+					default:
+						_, err = nb.FromUnsafeBytes(append([]byte(nil), datas[i]...))
+						runtime.Gosched()
+						nb = nb.Clone()
+					}
+					errs[i] = errs[i] || err != nil
+					if err == nil && outs[i] != nil && !outs[i].Equals(nb) { // the same bytes decoded to another set than a round ago
 						errs[i] = true
 					}
-				}()
-				nb := roaring.New()
-				_, err := nb.ReadFrom(&yieldReader{b: datas[i], sizes: chunkings[(c.J+i)%len(chunkings)]})
-				errs[i] = err != nil
-				outs[i] = nb
-			}(i)
+					outs[i] = nb
+				}(i, round)
+			}
+			wg.Wait() // (rounds one after the other: outs[i] / errs[i] are written by one goroutine at a time)
 		}
-		wg.Wait()
 		*targets = append([]int{}, c.Xs...)
 		for i := 0; i < n; i++ {
 			if outs[i] == nil || errs[i] {
